@@ -351,6 +351,8 @@ def gen_knobs(rng, feat, prof=None):
         "wall_jump": None if rng.random() < 0.8 else
         [rng.choice(GRID) - rng.choice((0.0, HALF)),
          rng.choice((-3600.0, -1.0, -0.5, 0.5, 1.0, 3600.0))],
+        # the application turns the package's warnings into errors
+        "strict_warnings": rng.random() < 0.15,
     }
 
 
